@@ -42,10 +42,11 @@ func (v *Violation) Key() string { return v.Class + "@" + v.Site }
 // SchedCfg mirrors core.Config (kept separate so that this package does not import golib).
 type SchedCfg struct {
 	Seed         uint64  `json:"seed"`
-	Policy       string  `json:"policy"` // uniform | sticky | pct | script
+	Policy       string  `json:"policy"` // uniform | sticky | pct | lockstep | script
 	StickyPct    int     `json:"sticky_pct,omitempty"`
 	PCTDepth     int     `json:"pct_depth,omitempty"`
 	PCTLen       int     `json:"pct_len,omitempty"`
+	Quanta       []int   `json:"quanta,omitempty"` // lockstep: steps per turn of each thread
 	Stalls       []Stall `json:"stalls,omitempty"`
 	FreezeAt     int     `json:"freeze_at"`
 	Probe        int     `json:"probe"`
